@@ -279,7 +279,9 @@ class SimpleDictDocument(DictDocument):
 
                     cinst = ninst
 
-                cfreq_key = cfreq_key + (ncls, nidx)
+                # the member name is part of the key: sibling members of the
+                # same class must not be counted together.
+                cfreq_key = cfreq_key + (ncls, (pkey, nidx))
                 idx = nidx
                 ctype_info = ncls.get_flat_type_info(ncls)
 
